@@ -4,7 +4,7 @@ from props import resolve_common as rc
 
 ID = "C07"
 LEVEL_TEXT = ("The Lean mirror of Resolver.get (split on the class separator, absolute-path handling with its two ResolverErrors, "
-              "the component loop, first-matching-child lookup with optional ASCII case folding, relax) is proved equal to the "
+              "the component loop, first-matching-child lookup with optional case folding (str.upper() on ASCII and the letters of Str.caseTable), relax) is proved equal to the "
               "component-by-component specification with the first failing component's error class; relax=True is proved to "
               "return None in exactly the cases where strict raises and never to raise; for sibling-unique, well-formed names "
               "get along the components of the absolute path of n, and along the relative components spelled from Walker.walk(m, n), "
@@ -13,7 +13,7 @@ LEVEL_TEXT = ("The Lean mirror of Resolver.get (split on the class separator, ab
               "ignorecase x relax combinations, two separators and a non-default path attribute.")
 LEVEL_NOTE = ("After the fix: commit for D1 (relaxed miss followed by further components). Trusted: Lean kernel, standard axioms; "
               "the mirror lean/Anytree/Model/Resolver.lean and Str.lean (Python str.split/startswith modelled; str.upper modelled on "
-              "ASCII only - ignorecase with non-ASCII names is CPython's case mapping and outside the model); the theorems about "
+              "ASCII and the 14 letters of Str.caseTable - other characters' case mapping is CPython's and outside the model); the theorems about "
               "absolute/relative paths are stated on component lists plus a split/join lemma for separator-free names.")
 THEOREMS = [
     ("Anytree.Props.C07.getLoop_eq_walk", "full"),
@@ -34,7 +34,7 @@ THEOREMS = [
     ("Anytree.Props.C07b.get_relPath", "full"),
 ]
 MODULES = ["Anytree.Props.C07", "Anytree.Props.C07b"]
-NOT_COVERED = ["ignorecase on non-ASCII names is outside the model (str.upper() is CPython's Unicode case mapping; the mirror maps ASCII letters only); get_absPath/get_relPath carry the exact side condition SepFree (the separator occurs in name+separator only at the end: sepFree_necessary shows it cannot be dropped) and a non-empty root name"]
+NOT_COVERED = ["ignorecase on characters outside the model alphabet (ASCII plus the 14 letters of Str.caseTable) is CPython's Unicode case mapping and not modelled; get_absPath/get_relPath carry the exact side condition SepFree (the separator occurs in name+separator only at the end: sepFree_necessary shows it cannot be dropped) and a non-empty root name"]
 PREDICATE_SPEC = True
 RULE = ("every ordered pair (m, n) of every shape up to N nodes (quick 5, thorough 6) with sibling-unique names: absolute path of n and "
         "the Walker-relative path from m, all four ignorecase x relax combinations; random paths of up to 4/6 components over names, "
@@ -115,6 +115,10 @@ def generate(tier, rng):
                                  "ignorecase": ic, "relax": rng.random() < 0.5})
         _renames(rng, c, t, sep, ic, targets + [labs[1], labs[len(labs) // 3]])
         yield c
+    # all of Unicode, judged without the model: the round trip of C07 over names unique under every folding
+    for _ in range(120 if tier == "quick" else 1500):
+        t = gen.labelled(gen.random_shape(rng, rng.randrange(2, 8 if tier == "quick" else 12)), rng, True)
+        yield rc.unires_roundtrip(rng, t)
     for _ in range(300 if tier == "quick" else 5000):
         t = gen.labelled(gen.random_shape(rng, rng.randrange(2, 9 if tier == "quick" else 16)), rng, True)
         sep = rng.choice(["/", "/", ";", "::"])
@@ -123,22 +127,22 @@ def generate(tier, rng):
         c.pop("lacks", None)
         c["reuse"] = rng.random() < 0.3
         labs = gen.tree_labels(t)
-        ascii_only = all(ord(ch) < 128 for _, v in c["names"] for ch in v)
+        ascii_only = all(rc.in_alphabet(v) for _, v in c["names"])      # ASCII plus the letters of the model's case table
         for _ in range(12):
             q_ic = ic if rng.random() < 0.8 else not ic
             if not ascii_only:
-                q_ic = False            # str.upper() on non-ASCII is CPython's case mapping: outside the model
+                q_ic = False            # str.upper() outside the model's alphabet is CPython's case mapping: not modelled
             c["queries"].append({"fn": "get", "start": rng.choice(labs),
                                  "path": rc.random_path(rng, c["names"], sep, False, 4 if tier == "quick" else 6),
                                  "ignorecase": q_ic, "relax": rng.random() < 0.5})
         if rng.random() < 0.3 and ascii_only and rc.names_ok(c["names"], sep) and c.get("pathattr") == "name" and not c.get("typed") \
-                and len(c["names"]) == len(labs):
+                and len(c["names"]) == len(labs) and rc.sibling_unique(t, c["names"], True):
             _renames(rng, c, t, sep, ic, rng.sample(labs, min(2, len(labs))))
         yield c
 
 
 def judge(case, impl, drv):
-    if case.get("fam") == "deepchain":
+    if case.get("fam") in ("deepchain", "unires"):
         return impl == {"ok": True}, True
     if isinstance(impl, dict) and impl.get("skip"):
         return True, True
@@ -164,6 +168,6 @@ def mirror_spec_ok(case, drv):
 
 
 def nontrivial(case):
-    if case.get("fam") == "deepchain":
+    if case.get("fam") in ("deepchain", "unires"):
         return True
     return gen.tree_size(case["tree"]) >= 3
